@@ -116,6 +116,11 @@ class Abs(Evaluator):
             return self._isinstance(e)
         if name == 'len' and len(e.args) == 1:
             return len(self.ev(e.args[0]))
+        if name == 'bool' and len(e.args) == 1:
+            v = self.ev(e.args[0])
+            if isinstance(v, Obj) or v is OPAQUE:
+                raise AnalysisError(f"truth value of an abstract object: {norm(e)}")
+            return bool(v)
         if name in ('all', 'any') and len(e.args) == 1 and isinstance(e.args[0], (ast.GeneratorExp, ast.ListComp)) \
                 and len(e.args[0].generators) == 1 and isinstance(e.args[0].generators[0].target, ast.Name):
             g = e.args[0].generators[0]
@@ -324,7 +329,7 @@ class Abs(Evaluator):
             elif isinstance(st, ast.FunctionDef):
                 self.funcs[st.name] = st
             elif isinstance(st, ast.Expr) and isinstance(st.value, ast.Call) and isinstance(st.value.func, ast.Name) \
-                    and isinstance(self.funcs.get(st.value.func.id), ast.FunctionDef):
+                    and st.value.func.id in self.funcs:
                 self.ev(st.value)
             elif isinstance(st, ast.Try) and not st.finalbody:
                 try:
@@ -2454,6 +2459,175 @@ def rule_lambda_names(repo):
     return r
 
 
+# ---------------------------------------------------------------------------
+# R-C09-writer-none: "this net has no writer" is an identity test against None, never truthiness
+def _netlist_expr(e):
+    return any((isinstance(x, ast.Name) and 'nets' in x.id) or (isinstance(x, ast.Attribute) and 'nets' in x.attr)
+               for x in ast.walk(e))
+
+
+def _writer_names(fn):
+    """names that hold the writer of a (writer, net) pair in this function"""
+    items, W = set(), set()
+    nodes = list(walk_no_nested(fn))
+    for _ in range(3):
+        for n in nodes:
+            pairs = []
+            if isinstance(n, ast.For):
+                pairs.append((n.target, n.iter))
+            elif isinstance(n, (ast.ListComp, ast.SetComp, ast.GeneratorExp, ast.DictComp)):
+                pairs += [(g.target, g.iter) for g in n.generators]
+            elif isinstance(n, ast.Assign) and len(n.targets) == 1:
+                pairs.append((n.targets[0], n.value))
+            for tgt, src in pairs:
+                is_asg = isinstance(n, ast.Assign)
+                from_list = _netlist_expr(src) and not is_asg
+                from_item = (isinstance(src, ast.Name) and src.id in items) or \
+                    (is_asg and isinstance(src, ast.Subscript) and _netlist_expr(src.value))
+                if isinstance(tgt, ast.Tuple) and len(tgt.elts) == 2:
+                    a2, b2 = tgt.elts
+                    if isinstance(src, ast.Call) and norm(src.func) == 'enumerate' and from_list:
+                        if isinstance(b2, ast.Name):
+                            items.add(b2.id)
+                        elif isinstance(b2, ast.Tuple) and len(b2.elts) == 2 and isinstance(b2.elts[0], ast.Name):
+                            W.add(b2.elts[0].id)
+                    elif (from_list or from_item) and isinstance(a2, ast.Name):
+                        W.add(a2.id)
+                elif isinstance(tgt, ast.Name) and from_list:
+                    items.add(tgt.id)
+        for n in nodes:     # (w, net) pairs stored into a result list
+            if isinstance(n, ast.Call) and isinstance(n.func, ast.Attribute) and n.func.attr == 'append' and len(n.args) == 1 \
+                    and isinstance(n.args[0], ast.Tuple) and len(n.args[0].elts) == 2 and isinstance(n.args[0].elts[0], ast.Name) \
+                    and isinstance(n.args[0].elts[1], ast.Name) and 'net' in n.args[0].elts[1].id:
+                W.add(n.args[0].elts[0].id)
+    return W
+
+
+def _truth_tests(fn, names):
+    """nodes that use one of `names` for its truth value"""
+    out = []
+
+    def direct(e):
+        while isinstance(e, ast.UnaryOp) and isinstance(e.op, ast.Not):
+            e = e.operand
+        return isinstance(e, ast.Name) and e.id in names
+    for n in ast.walk(fn):
+        if isinstance(n, (ast.If, ast.While, ast.IfExp, ast.Assert)) and direct(n.test):
+            out.append(n.test)
+        elif isinstance(n, ast.comprehension):
+            out += [c for c in n.ifs if direct(c)]
+        elif isinstance(n, ast.BoolOp):
+            out += [v for v in n.values if direct(v)]
+        elif isinstance(n, ast.UnaryOp) and isinstance(n.op, ast.Not) and direct(n.operand):
+            out.append(n)
+        elif isinstance(n, ast.Call) and norm(n.func) == 'bool' and len(n.args) == 1 and direct(n.args[0]):
+            out.append(n)
+    uniq = []
+    for x in out:
+        if not any(x is y for y in uniq) and not any(x is not y and any(x is z for z in ast.walk(y)) for y in out):
+            uniq.append(x)
+    return uniq
+
+
+def rule_writer_none(repo):
+    r = RuleResult('R-C09-writer-none', "whether a net has a writer is decided by identity with None, never by the truth value of "
+                                        "the writer object; no Connectable class defines __bool__/__len__ (a zero constant or an "
+                                        "empty-looking signal must not read as 'no writer')")
+    cm = repo.mod(CONN)
+    for cname, cdef in sorted(cm.classes.items()):
+        names = {c.name for _, c in repo.mro(cm, cdef)}
+        if 'Connectable' not in names:
+            continue
+        own = [st.name for st in cm._defs_in(cdef.body) if isinstance(st, ast.FunctionDef) and st.name in ('__bool__', '__len__')]
+        cons = f"class {cname} has no __bool__/__len__"
+        if own:
+            r.bad(cm, cname, cons, f"{cname} defines {own}: every `if x:` / `not x` / `x or y` on such an object silently becomes a "
+                  f"question about its VALUE (a constant 0 driving a net reads as 'no writer' and skips the port checks)",
+                  cdef.lineno)
+        else:
+            r.ok(cm, cname, cons, nontrivial=False)
+    for rel in (L3, L5, COMP):
+        mod = repo.mod(rel)
+        for cdef in mod.classes.values():
+            for fn in mod._defs_in(cdef.body):
+                if not isinstance(fn, ast.FunctionDef):
+                    continue
+                W = _writer_names(fn)
+                if not W:
+                    continue
+                tests = _truth_tests(fn, W)
+                fq = f"{cdef.name}.{fn.name}"
+                if not tests:
+                    r.ok(mod, fq, f"writer variables {sorted(W)} are only compared by identity")
+                for t in tests:
+                    r.bad(mod, fq, f"truth value of a net writer: {norm(t)}",
+                          f"`{norm(t)}` asks for the truth value of the net's writer object; the 'no writer' marker is None -- "
+                          f"use `is None`: a writer with value semantics (e.g. a constant 0 once Const defines __bool__) is taken "
+                          f"for a headless net and its port-direction check is skipped", t.lineno)
+    # embedded positive example
+    from sa.loader import _set_parents
+    probe = ast.parse("def f(s):\n  nets = s._dsl.all_value_nets\n  for writer, _ in nets:\n    if not writer: continue\n"
+                      "    g(writer)\n  for w2, sigs in nets:\n    if w2 is None: continue\n")
+    _set_parents(probe)
+    pf = probe.body[0]
+    if _writer_names(pf) != {'writer', 'w2'} or [norm(t) for t in _truth_tests(pf, {'writer', 'w2'})] != ['not writer']:
+        raise AnalysisError("R-C09-writer-none: embedded probe not judged as expected")
+    if not r.findings:
+        r.require_floor(20)
+    return r
+
+
+# ---------------------------------------------------------------------------
+# R-C09-ifc-connect: the custom connect() protocol of interfaces
+def rule_ifc_protocol(repo):
+    r = RuleResult('R-C09-ifc-connect', "_connect_interfaces, evaluated over {no connect(), returns True / False / None / 0} for "
+                                        "both interfaces: the by-name connection is made exactly once iff every custom connect() "
+                                        "that exists declined (returned a false value); all call sites read the result alike")
+    m, f = _func_of(repo, L3, 'ComponentLevel3._connect_interfaces')
+    fq = 'ComponentLevel3._connect_interfaces'
+    if len(f.args.args) != 3:
+        raise AnalysisError(f"{fq}: signature changed")
+    me, p1, p2 = [a.arg for a in f.args.args]
+    helpers = [st for st in f.body if isinstance(st, ast.FunctionDef)]
+    if len(helpers) != 1:
+        raise AnalysisError(f"{fq}: expected one nested by-name helper")
+    hname = helpers[0].name
+    body = [st for st in f.body if not isinstance(st, ast.FunctionDef) and not _is_doc(st)]
+    ABSENT = object()
+    vals = [('no connect()', ABSENT), ('connect() -> True', True), ('connect() -> False', False), ('connect() -> None', None),
+            ('connect() -> 0', 0)]
+
+    def mk(v):
+        o = Obj('Interface')
+        if v is not ABSENT:
+            o.fields['connect'] = True
+            o.fields['connect()'] = v
+        return o
+    for l1, v1 in vals:
+        for l2, v2 in vals:
+            o1, o2 = mk(v1), mk(v2)
+            calls = []
+            ev = Abs({me: Obj('Component'), p1: o1, p2: o2}, funcs={hname: lambda a2, b2: calls.append((a2, b2))})
+            out = run_block(ev, body)
+            r.evaluations += 1
+            want = 1 if (v1 is ABSENT or not v1) and (v2 is ABSENT or not v2) else 0
+            cons = f"o1: {l1}; o2: {l2}"
+            if out[0] != 'fall':
+                r.bad(m, fq, cons, f"ends with {out}", f.lineno)
+            elif len(calls) != want:
+                why = ("a connect() that declines (returns a false value such as None) is treated as having handled the "
+                       "connection: the ports stay unconnected") if want else \
+                      "the ports are connected by name although a custom connect() handled them (or twice)"
+                r.bad(m, fq, cons, f"the by-name connection is made {len(calls)} time(s), expected {want}: {why}", f.lineno)
+            elif calls and not ((calls[0][0] is o1 and calls[0][1] is o2) or (calls[0][0] is o2 and calls[0][1] is o1)):
+                r.bad(m, fq, cons, "the by-name connection is not made between the two interfaces", f.lineno)
+            else:
+                r.ok(m, fq, cons)
+    if not r.findings:
+        r.require_floor(25)
+    return r
+
+
 from rules.c02 import rule_funcfold   # noqa: E402  (a writer hidden in a nested helper must be attributed to the block: shared with C02)
 from rules.c02 import rule_cache_scope   # noqa: E402  (read/write sets judged by the checks must not be stale cache entries of another lambda body)
 from rules.c02 import rule_visitor   # noqa: E402  (every statement position that can hold a store -- for/while else, with, try -- is visited, so no driver is invisible to the checks)
@@ -2467,7 +2641,7 @@ from rules.c08 import rule_ancestors   # noqa: E402  (every signal ancestor of a
 RULES = [rule_overlap, rule_slicekey, rule_pipeline, rule_mw_guard, rule_mw_cover, rule_porttable, rule_optable,
          rule_nowriter, rule_loop, rule_raise_resolves, rule_const_host, rule_funcfold, rule_cache_scope, rule_ancestors,
          rule_op_record, rule_visitor, rule_cache_readonly, rule_byname, rule_collectors, rule_index_scope,
-         rule_netwriters, rule_byname_fields, rule_lambda_names, rule_nodes]
+         rule_netwriters, rule_byname_fields, rule_lambda_names, rule_nodes, rule_writer_none, rule_ifc_protocol]
 
 
 # ---------------------------------------------------------------------------
@@ -2565,6 +2739,16 @@ MUTANTS = [
     _m('lambda-name-counter-stuck', L3, "      nth += 1\n      blk_name = f\"{base_name}__{nth}\"", "      blk_name = f\"{base_name}__{nth}\"", 'R-C09-lambda-name'),
     _m('lambda-name-uniquify-once', L3, "    while blk_name in s._dsl.name_upblk:\n      nth += 1", "    if blk_name in s._dsl.name_upblk:\n      nth += 1", 'R-C09-lambda-name'),
     _m('lambda-name-suffix-ambiguous', L3, "      blk_name = f\"{base_name}__{nth}\"", "      blk_name = f\"{base_name}_\"", 'R-C09-lambda-name'),
+    _m('dfs-skips-falsy-writer', L3, "    for writer, _ in nets:\n", "    for writer, _ in nets:\n      if not writer: continue\n", 'R-C09-writer-none'),
+    _m('const-gets-bool', CONN, "  def get_parent_object( s ):\n    try:\n      return s._dsl.parent_obj", "  def __bool__( s ):\n    return bool( s._dsl.const )\n\n  def get_parent_object( s ):\n    try:\n      return s._dsl.parent_obj", 'R-C09-writer-none'),
+    _m('headless-by-truthiness', L3, "for writer, signals in nets if writer is None ]", "for writer, signals in nets if not writer ]", 'R-C09-writer-none'),
+    _m('signal-gets-len', CONN, "  def default_value( s ):\n    return s._dsl.Type()", "  def __len__( s ):\n    return s._dsl.Type.nbits\n\n  def default_value( s ):\n    return s._dsl.Type()", 'R-C09-writer-none'),
+    dict(name='ifc-second-connect-is-false', rule='R-C09-ifc-connect', edits=[
+        dict(file=L3, old="          if not o2.connect( o1, s ):\n            connect_by_name( o1, o2 )", new="          if o2.connect( o1, s ) is False:\n            connect_by_name( o1, o2 )", count=1),
+        dict(file=L3, old="        if not o2.connect( o1, s ):\n          connect_by_name( o1, o2 )", new="        if o2.connect( o1, s ) is False:\n          connect_by_name( o1, o2 )", count=1)]),
+    _m('ifc-first-connect-is-false', L3, "      if not o1.connect( o2, s ): # o1.connect fail", "      if o1.connect( o2, s ) is False: # o1.connect fail", 'R-C09-ifc-connect'),
+    _m('ifc-byname-although-handled', L3, "      if not o1.connect( o2, s ): # o1.connect fail", "      if o1.connect( o2, s ): # o1.connect fail", 'R-C09-ifc-connect'),
+    _m('ifc-second-side-not-tried', L3, "        if hasattr( o2, \"connect\" ):\n          if not o2.connect( o1, s ):\n            connect_by_name( o1, o2 )\n        else:\n          connect_by_name( o1, o2 )", "        connect_by_name( o1, o2 )", 'R-C09-ifc-connect'),
     _m('loop-back-edge-to-root-ignored', L3, "            elif v is not pred[u]:", "            elif v in pred and v is not pred[u]:", 'R-C09-loop'),
     _m('floodfill-neighbour-not-queued', L3, "              pred[v] = u\n              Q.append( v )", "              pred[v] = u", 'R-C09-loop'),
     _m('floodfill-two-signal-nets-dropped', L3, "        if len(net) == 1:\n          continue", "        if len(net) <= 2:\n          continue", 'R-C09-loop'),
@@ -2640,6 +2824,11 @@ EQUIV = [
         dict(file=L3, old="    base_name, nth = blk_name, 1\n", new="    base_name = blk_name\n    nth       = 1\n", count=1)]),
     _m('lambda-name-membership-keys', L3, "    while blk_name in s._dsl.name_upblk:", "    while blk_name in s._dsl.name_upblk.keys():"),
     _m('lambda-name-fstring', L3, "blk_name = \"_lambda__{}\".format( repr(o)", "blk_name = \"_lambda__\" + \"{}\".format( repr(o)"),
+    _m('dfs-skips-none-writer-by-identity', L3, "    for writer, _ in nets:\n", "    for writer, _ in nets:\n      if writer is None: continue\n"),
+    _m('headless-is-none-eq-form', L3, "for writer, signals in nets if writer is None ]", "for writer, signals in nets if not (writer is not None) ]"),
+    _m('ifc-flipped-branches', L3, "          if not o2.connect( o1, s ):\n            connect_by_name( o1, o2 )\n        else:", "          if o2.connect( o1, s ):\n            pass\n          else:\n            connect_by_name( o1, o2 )\n        else:"),
+    _m('ifc-result-in-local', L3, "      if not o1.connect( o2, s ): # o1.connect fail", "      handled = o1.connect( o2, s )\n      if not handled: # o1.connect fail"),
+    _m('ifc-bool-of-result', L3, "        if not o2.connect( o1, s ):\n          connect_by_name( o1, o2 )", "        if bool( o2.connect( o1, s ) ) == False:\n          connect_by_name( o1, o2 )"),
     _m('loop-test-ne-for-identity', L3, "            elif v is not pred[u]:", "            elif v != pred[u]:"),
     _m('floodfill-breadth-first', L3, "          u = Q.pop()\n          visited.add( u )", "          u = Q.pop(0)\n          visited.add( u )"),
     _m('floodfill-root-pred-none', L3, "        Q   = [ obj ]\n", "        Q   = [ obj ]\n        pred[obj] = None\n"),
